@@ -43,3 +43,11 @@ BUILT['C05'] = (
     "side; constructors are compared with the documented ordered product; deg = rad*180/pi; all 15 pitch formulas of tr2rpy "
     "and all branches of tr2eul are required line-reach targets",
     NOTE, "DESIGN.md 4 C05")
+BUILT['C06'] = (
+    "boundary monitor on pose*points against an independent R p + t (value and shape), law monitor, route-agreement monitor, "
+    "runtime contracts on homtrans/e2h/h2e/qvmul; required line reach of every dispatch branch of SMPose.__mul__",
+    "pose objects of six classes holding 1..5 distinct values are applied to points given in six container forms (d x N with "
+    "N=1..7 incl. N=d) with coordinates 1e-6..1e6 and structured translations (components cancelling exactly); results are "
+    "compared with R p + t evaluated in longdouble to 1e-9 of the data magnitude; composition/inverse/distance/handedness laws "
+    "and the matrix / unit-quaternion / dual-quaternion / homogeneous-function routes are compared on the same data",
+    NOTE, "DESIGN.md 4 C06")
